@@ -165,7 +165,7 @@ class M(gen_builder.T):
                 t, ty = self.mexpr(e.args[0], env)
                 if ty != "Pt":
                     fail(e, "apply_transform of a " + ty)
-                return f"(applyTransformId {t})", "Pt"
+                return f"({getattr(self, 'xf_fn', 'applyTransformId')} {t})", "Pt"
             if isinstance(f, ast.Attribute) and f.attr in ("scale", "to_pixels") and len(e.args) == 1:
                 u, uty = self.mexpr(f.value, env)
                 v, vty = self.mexpr(e.args[0], env)
@@ -697,6 +697,18 @@ class M(gen_builder.T):
             fail(m, f"return annotation {rs} of {name}")
         return params, RET[rs]
 
+    def motion_method_T(self, cls, name):
+        """the same method once more, with `self.transform.apply_transform` an arbitrary function `T` (the transformer in effect)"""
+        self.xf_fn = "T"
+        try:
+            text = self.motion_method(cls, name)
+        finally:
+            self.xf_fn = "applyTransformId"
+        if "(T " not in text:
+            raise Unsupported(f"{cls}.{name} does not apply the transform")
+        return (text.replace(f"def {cls}.{name} (self : BSt)", f"def {cls}.{name}_T (T : Pt → Pt) (self : BSt)", 1)
+                    .replace(f"/-- `{cls}.{name}` (source line", f"/-- `{cls}.{name}` under an arbitrary transform `T = self.transform.apply_transform` (source line", 1))
+
     def motion_method(self, cls, name):
         m = self.klass[cls][name]
         params, ret = self.signature(cls, name)
@@ -854,6 +866,7 @@ class M(gen_builder.T):
         out.append("/-- what a hook reads off the state object it is handed: `state.extrusion_mode`, `state.get_parameter(\"E\")` -/")
         out.append("def hookEnv (g : GState) : HookEnv :=\n  ⟨decide (g._current_extrusion_mode = ExtrusionMode.RELATIVE), (g._current_params.get \"E\").getD 0⟩\n")
         out += meths
+        out.append(self.motion_method_T("GCodeCore", "_transform_move"))
         out.append(self.init_def())
         out.append("def translated : List String := [" + ", ".join(f'"{c}.{n}"' for c, n in METHODS) + "]\n")
         out.append("end GscribModel.Gen.MotionSrc")
